@@ -174,6 +174,11 @@ func (vt *Model) ich(ps int) {
 		}
 		line[col+column(i)].erase(vt.cursor.Style.Background)
 	}
+	// The right half of a wide character may have been pushed off the line
+	if last := &line[vt.margin.right]; last.Width > 1 {
+		last.Grapheme = " "
+		last.Width = 1
+	}
 }
 
 // Cursur Up (CUU) CSI Ps A
